@@ -44,14 +44,17 @@ func init() {
 		ID: "C13",
 		Rule: "Case list = 217 enumeration blocks + N random blocks. " +
 			"Enumeration: ALL byte strings over {00,01,02,03,04,5A} of length 0..L (quick L=8: 2 015 539 strings, thorough L=9: 12 093 235 strings); block k<216 fixes the first three symbols, block 216 holds lengths 0..2. " +
-			"Every string is written through bits.EBSPWriter under 7 chunkings (8-bit calls; 1-bit calls; alternating 3/5; 12-bit; 32-bit; a 1..7-bit prefix of zeros or ones so that every data byte straddles two output bytes, closed by a complementary suffix; random widths 1..32) and the output is compared with the reference escaper; " +
-			"the reference-escaped stream is read back through bits.EBSPReader with the mirrored widths, with a different chunking, and with ReadBytes, checking every returned value and NrBytesRead/NrBitsRead/NrBitsReadInCurrentByte after every call. " +
-			"Random blocks: 100 operation sequences each (quick 2 000 blocks, thorough 100 000) of 1..60 (2%: up to 400) operations drawn from fixed-width 1..32 (boundary and zero-heavy values), flag, two's-complement signed, ue(v) <= 2^32-2, se(v) in +-(2^31-1), ff-run value, byte runs, alignment, " +
-			"through the pairs Writer->Reader (ue(v) written as its two fixed-width parts and read with Reader.ReadExpGolomb when the tree has that method), EBSPWriter->EBSPReader (incl. MoreRbspData at operation boundaries, ReadRbspTrailingBits), FixedSliceWriter bit+byte functions->Reader, ByteWriter->Reader. " +
+			"Every string is written through bits.EBSPWriter under 8 chunkings (8-bit calls; 1-bit calls; alternating 3/5; 12-bit; 32-bit; a 1..7-bit prefix of zeros or ones so that every data byte straddles two output bytes, closed by a complementary suffix; random widths 1..32; trail: a 0..7-bit prefix, the first k bytes, WriteRbspTrailingBits (byte aligned when the prefix is empty), then the writer is used further for the other bytes, k cycling over all positions) and the output is compared with the reference escaper; " +
+			"the reference-escaped stream is read back through bits.EBSPReader with the mirrored widths, with a different chunking, and with ReadBytes, checking every returned value and NrBytesRead/NrBitsRead/NrBitsReadInCurrentByte after every call, including the last call that runs into the end of the stream (Read(1), ReadBytes(1)); for three chunkings the stream is also finished the way the parsers do it (Read up to the last 1 bit, MoreRbspData, ReadRbspTrailingBits scanning to the physical end, Read(1)). " +
+			"Every string whose escaped form ends in a cabac_zero_word (two zero bytes) is read a second time in complete-NAL-unit form, i.e. with the final 03 of 7.4.1 appended by the harness's escaper (ref/bitw.EscapeFinal; the library's writer never produces that form). " +
+			"Random blocks: 100 operation sequences each (quick 2 000 blocks, thorough 100 000) of 1..60 (2%: up to 400) operations drawn from fixed-width 1..32 (boundary and zero-heavy values), flag, two's-complement signed, ue(v) <= 2^32-2, se(v) in +-(2^31-1), ff-run value, byte runs, alignment, rbsp_trailing_bits in the middle of the sequence (aligned and unaligned, often followed by zero bytes), " +
+			"through the pairs Writer->Reader (ue(v) written as its two fixed-width parts and read with Reader.ReadExpGolomb when the tree has that method), EBSPWriter->EBSPReader (incl. MoreRbspData at operation boundaries, ReadRbspTrailingBits; 28% of the sequences continue after the closing trailing bits with 1..5 cabac_zero_words written in 8/16/32-bit calls, are read from the stream with or without the final 03, and are finished through ReadRbspTrailingBits, Read calls or ReadBytes calls, the last of which hits the end), FixedSliceWriter bit+byte functions->Reader, ByteWriter->Reader. " +
 			"distinct_nontrivial counts distinct blocks (hash of block content) in which at least one stream was written and read back completely; evaluations counts individual strings x chunkings and sequences.",
 		Assumptions: []string{
 			"reference bit writer/reader, ue/se codes and RBSP escaper/unescaper of ref/bitw are written from ISO/IEC 14496-10 7.2, 7.4.1, 9.1 and do not import mp4ff",
 			"counter semantics: after a read that consumed k RBSP bits (k>0), NrBytesRead = 1 + index in the escaped stream of the byte holding bit k-1, NrBitsReadInCurrentByte = ((k-1) mod 8)+1, NrBitsRead = 8*(NrBytesRead-1)+NrBitsReadInCurrentByte (an escape byte is counted when the byte after it is fetched)",
+			"counter semantics at the end: after a call that ran into the end of the stream with no bits pending (Read/ReadBytes past the end from a byte boundary, ReadRbspTrailingBits, which scans to the end) every byte of the escaped stream has been taken from the source, a final emulation prevention byte included: NrBytesRead = length of the escaped stream, NrBitsRead = 8 x that; MoreRbspData restores the position it had",
+			"a complete NAL unit may end 00 00 03 (7.4.1: a final 03 is appended after a cabac_zero_word); the 03 is an escape, not data: the reader must report end of data there",
 			"values are passed with at most `width` significant bits, except in the operations marked dirty-high-bits where the documented 'write n bits from bits' is taken to mean the n low bits",
 			"reading past the end is documented to set the accumulated error (io.EOF) and return 0; that is checked as behaviour, not reported as a violation",
 			"64-bit uint (amd64): widths up to 32 bits plus 7 pending bits fit the accumulator",
